@@ -2,7 +2,8 @@
 """usage: tools/adopt_mutant.py <ID> <mK> "<caught by / notes>"  -- copies a confirmed seeded change into seeded/<ID>-<mK>/"""
 import json, os, shutil, sys
 pid, mk, notes = sys.argv[1], sys.argv[2], sys.argv[3]
-base = sys.argv[4] if len(sys.argv) > 4 else '/tmp/wt'          # round 2 lives under /tmp/wt2 and is stored as <ID>-r2-<mK>
+base = sys.argv[4] if len(sys.argv) > 4 else '/tmp/wt'
+check_with = sys.argv[5] if len(sys.argv) > 5 else None     # another property's check decides this change          # round 2 lives under /tmp/wt2 and is stored as <ID>-r2-<mK>
 tag = {'/tmp/wt': '', '/tmp/wt2': 'r2-', '/tmp/wt3': 'r3-', '/tmp/wt4': 'r4-', '/tmp/wt5': 'r5-'}.get(base, 'rx-')
 src = f'{base}/{pid}/MUTANTS/{mk}'
 dst = os.path.join(os.path.dirname(os.path.dirname(os.path.abspath(__file__))), 'seeded', f'{pid}-{tag}{mk}')
@@ -25,5 +26,7 @@ meta_out = {
     },
     'detected_by': notes,
 }
+if check_with:
+    meta_out['check_with'] = check_with
 json.dump(meta_out, open(os.path.join(dst, 'meta.json'), 'w'), indent=1)
 print('adopted', dst)
